@@ -49,13 +49,13 @@ PROPS = {
                 state=kinds("RQ", "VO", "PR", "B"), effects=eff("transfer"), errnames=False),
     "C08": dict(profiles=["lifecycle", "money", "modules"], monitors=["respondLaw", "rejectedNoChange", "settlement", "requests"],
                 state=kinds("AI", "AB", "RS", "RQ"), effects=eff("transfer", "slash"), errnames=True),
-    "C09": dict(profiles=["lifecycle", "modules", "genesis"], monitors=["lifecycle"],
+    "C09": dict(profiles=["lifecycle", "modules", "genesis"], monitors=["lifecycle", "restartCtxs"],
                 state=kinds("CX"), effects=eff("ev", "statecb"), errnames=True),
-    "C10": dict(profiles=["lifecycle"], monitors=["queues", "lifecycle", "cadence"],
+    "C10": dict(profiles=["lifecycle"], monitors=["queues", "lifecycle", "cadence", "restartCtxs"],
                 state=kinds("CX", "NQ", "XQ", "NH", "XH"), effects=eff("ev"), errnames=False),
-    "C11": dict(profiles=["lifecycle", "mixed", "genesis"], monitors=["queues", "requests"],
+    "C11": dict(profiles=["lifecycle", "mixed", "genesis"], monitors=["queues", "requests", "restartCtxs"],
                 state=kinds("CX", "NQ", "XQ", "NH", "XH", "AI", "AB", "RQ"), effects=eff("ev"), errnames=False),
-    "C12": dict(profiles=["modules", "lifecycle", "genesis"], monitors=["counts", "callbacks"],
+    "C12": dict(profiles=["modules", "lifecycle", "genesis"], monitors=["counts", "callbacks", "restartCtxs"],
                 state=kinds("CX", "RQ", "RS"), effects=eff("respcb", "statecb", "ev"), errnames=False),
     "C13": dict(profiles=["money", "mixed", "genesis", "modsvc"], monitors=["ownerEarnings", "withdrawLaw", "conservation"],
                 state=kinds("EF", "OE", "WD", "A", "OW"), effects=eff("transfer"), errnames=True),
@@ -63,13 +63,13 @@ PROPS = {
                 state=kinds("B", "PR"), effects=eff("slash"), errnames=True),
     "C15": dict(profiles=["bindings", "authority", "genesis"], monitors=["indexes", "stability", "queryExact"],
                 state=kinds("Q", "D", "B", "OB", "OW", "PO", "PR"), effects=eff(), errnames=True),
-    "C16": dict(profiles=["lifecycle", "mixed", "genesis"], monitors=["requests", "counts", "lifecycle"],
+    "C16": dict(profiles=["lifecycle", "mixed", "genesis"], monitors=["requests", "counts", "lifecycle", "restartCtxs"],
                 state=kinds("CX", "RQ", "RS", "AI", "AB"), effects=eff("ev"), errnames=False),
     "C17": dict(profiles=["queries"], monitors=["queryExact"],
                 state=kinds("Q", "D", "B", "WD", "CX", "RQ", "RS", "AB", "EF", "OE"), effects=eff(), errnames=True),
     "C18": dict(profiles=["mixed", "lifecycle"], monitors=["issueLaw", "requests", "queryExact"],
                 state=kinds("Q", "CX", "RQ", "RS", "AI", "AB", "NQ", "XQ", "NH", "XH"), effects=eff(), errnames=False),
-    "C19": dict(profiles=["genesis"], monitors=["genesisLaw", "escrowBacked", "indexes", "requests"], state=lambda l: True,
+    "C19": dict(profiles=["genesis"], monitors=["genesisLaw", "escrowBacked", "indexes", "requests", "restartCtxs"], state=lambda l: True,
                 effects=eff("transfer"), errnames=False),
     "C20": dict(profiles=["mixed", "authority", "modsvc"], monitors=["noPanic"], state=lambda l: True,
                 effects=lambda l: True, errnames=False),
